@@ -6,6 +6,7 @@ import (
 	"context"
 	"errors"
 	"fmt"
+	"strings"
 
 	"github.com/samsarahq/thunder/batch"
 	"github.com/samsarahq/thunder/concurrencylimiter"
@@ -25,6 +26,9 @@ type cfg struct {
 	// Own: the canceller cancels only caller 0's own context (derived from the batching context); the last caller
 	// is started by caller 0's thread after its Invoke has returned, with the live batching context
 	Own bool
+	// Typed: the shard function returns values of two different named integer types with the same number
+	// (distinct shards that print alike)
+	Typed bool
 }
 
 func (c cfg) name() string {
@@ -32,12 +36,17 @@ func (c cfg) name() string {
 	if c.Own {
 		s += " own=true"
 	}
+	if c.Typed {
+		s += " typed=true"
+	}
 	return s
 }
 
 func parse(name string) cfg {
 	var c cfg
-	fmt.Sscanf(name, "K=%d shard=%t max=%d cancel=%t limit=%d faults=%t funcs=%d own=%t", &c.K, &c.Shard, &c.MaxSize, &c.Cancel, &c.Limit, &c.Faults, &c.Funcs, &c.Own)
+	fmt.Sscanf(name, "K=%d shard=%t max=%d cancel=%t limit=%d faults=%t funcs=%d", &c.K, &c.Shard, &c.MaxSize, &c.Cancel, &c.Limit, &c.Faults, &c.Funcs)
+	c.Own = strings.Contains(name, "own=true")
+	c.Typed = strings.Contains(name, "typed=true")
 	return c
 }
 
@@ -54,6 +63,9 @@ type ret struct {
 }
 
 var errBatch = errors.New("batch failed")
+
+type evenShard int
+type oddShard int
 
 func f(arg int) int { return arg*10 + 1 }
 
@@ -116,6 +128,14 @@ func item(c cfg) *explore.Item {
 			if c.Shard {
 				funcs[fi].Shard = func(a interface{}) interface{} { return a.(int) % 2 }
 			}
+			if c.Typed {
+				funcs[fi].Shard = func(a interface{}) interface{} {
+					if a.(int)%2 == 0 {
+						return evenShard(1)
+					}
+					return oddShard(1)
+				}
+			}
 		}
 		rets := make([]ret, c.K)
 		own0 := ctx
@@ -164,7 +184,7 @@ func item(c cfg) *explore.Item {
 				if a%nf != cl.fn {
 					x.Fail("func-mix", "", "arg %d handed to Func %d", a, cl.fn)
 				}
-				if c.Shard && a%2 != cl.args[0]%2 {
+				if (c.Shard || c.Typed) && a%2 != cl.args[0]%2 {
 					x.Fail("shard-mix", "", "batch %v mixes shards", cl.args)
 				}
 				if seen[[2]int{cl.fn, a}] != nil {
@@ -249,6 +269,7 @@ func configs(tier string) []cfg {
 			out = append(out, cfg{K: k, MaxSize: max, Cancel: true, Funcs: 1, Own: true})
 		}
 		out = append(out, cfg{K: k, Shard: true, Cancel: true, Funcs: 1, Own: true}, cfg{K: k, Cancel: true, Funcs: 1, Own: true, Limit: 1})
+		out = append(out, cfg{K: k, Typed: true, Funcs: 1}, cfg{K: k, Typed: true, MaxSize: 2, Funcs: 1})
 	}
 	return out
 }
@@ -264,5 +285,5 @@ func run(rp *explore.Report, tier string) {
 func init() {
 	reg.Register(&reg.Harness{Property: "C05", Name: "c05/batch", Level: "model_checking", Bounds: [2]int{3, 4}, Run: run,
 		Item: func(name string) *explore.Item { return item(parse(name)) },
-		Rule: "items = callers K x shard function x MaxSize x canceller thread (cancelling everything, or only one caller's own context with a later call on the live batching context) x concurrency limiter size x batch-function outcome (explorer choice: ok / error / short result / panic with a string, an error, an int or a struct value); all interleavings incl. early firings of the virtual wait-interval and max-duration timers within the deviation bound, on the real batch.Func.Invoke; non-trivial = K>1 concurrent callers"})
+		Rule: "items = callers K x shard function (by parity; by values of two named types that print alike) x MaxSize x canceller thread (cancelling everything, or only one caller's own context with a later call on the live batching context) x concurrency limiter size x batch-function outcome (explorer choice: ok / error / short result / panic with a string, an error, an int or a struct value); all interleavings incl. early firings of the virtual wait-interval and max-duration timers within the deviation bound, on the real batch.Func.Invoke; non-trivial = K>1 concurrent callers"})
 }
